@@ -28,7 +28,9 @@ def prog (api : String) (ok : Nat → Bool) : Option (M Int × Bool) :=   -- (pr
 
 def handle (op : String) (args : List String) : Option String :=
   match op, args with
-  | "fault.run", api :: mode :: rest => do
+  | "fault.run", api0 :: mode :: rest => do
+    -- "<api>.m<bytes>": the same call with another memory limit; the allocation sequence does not depend on it
+    let api := (api0.splitOn ".m").headD api0
     let i := (rest.head?.bind String.toNat?).getD 0
     let (p, isStr) ← prog api (oracle mode i)
     let r := run p
